@@ -282,9 +282,17 @@ def _run_stream(exe, lines, restart_on_death, env=None):
     outs = []
     pos = 0
     n = len(lines)
+    # encoded once; a restart behind a line that killed the process sends a view of the rest (a tree on which
+    # thousands of operations abort would otherwise re-encode the whole remaining input for each of them)
+    enc = [l.encode() for l in lines]
+    blob = b"\n".join(enc) + b"\n" if enc else b""
+    offs = [0]
+    for b_ in enc:
+        offs.append(offs[-1] + len(b_) + 1)
+    view = memoryview(blob)
     while pos < n:
-        chunk = lines[pos:]
-        data = ("\n".join(chunk) + "\n").encode()
+        nchunk = n - pos
+        data = view[offs[pos]:]
         e = dict(os.environ)
         if env:
             e.update(env)
@@ -294,8 +302,8 @@ def _run_stream(exe, lines, restart_on_death, env=None):
             got.pop()
         if hung and got and not stdout.endswith(b"\n"):
             got.pop()  # a partial line of the operation that never finished
-        if len(got) >= len(chunk):
-            outs.extend(got[: len(chunk)])
+        if len(got) >= nchunk:
+            outs.extend(got[:nchunk])
             pos = n
             break
         # died (or hung) on line index len(got)
